@@ -134,6 +134,16 @@ pub struct SavedVmState {
     pub new_target: JsValue,
     /// Trampoline call stack (for nested function calls)
     pub trampoline_stack: Vec<SavedTrampolineFrame>,
+    /// `this` of the suspended frame
+    pub this_value: JsValue,
+    /// Exception the suspended frame is handling (kept alive by `guard`)
+    pub exception_value: Option<JsValue>,
+    /// Block scopes the suspended frame has entered
+    pub saved_env_stack: Vec<Gc<JsObject>>,
+    /// Constructor the suspended frame is running
+    pub current_constructor: Option<Gc<JsObject>>,
+    /// Completion waiting for the suspended frame's finally block (kept alive by `guard`)
+    pub pending_completion: Option<SavedCompletion>,
 }
 
 /// A call frame in the VM
@@ -182,6 +192,56 @@ pub enum PendingCompletion {
     Continue { target: usize, try_depth: u8 },
 }
 
+/// A pending completion inside a saved state (Clone-able version without Guard)
+/// The SavedVmState.guard keeps its value alive during suspension
+#[derive(Clone)]
+pub enum SavedCompletion {
+    Return(JsValue),
+    Throw(JsValue),
+    Break { target: usize, try_depth: u8 },
+    Continue { target: usize, try_depth: u8 },
+}
+
+impl PendingCompletion {
+    /// Copy for a saved state, keeping the value alive through the state's guard
+    fn save(&self, guard: &Guard<JsObject>) -> SavedCompletion {
+        let keep = |value: &JsValue| {
+            if let JsValue::Object(obj) = value {
+                guard.guard(obj.cheap_clone());
+            }
+            value.clone()
+        };
+        match self {
+            PendingCompletion::Return(g) => SavedCompletion::Return(keep(&g.value)),
+            PendingCompletion::Throw(g) => SavedCompletion::Throw(keep(&g.value)),
+            PendingCompletion::Break { target, try_depth } => SavedCompletion::Break {
+                target: *target,
+                try_depth: *try_depth,
+            },
+            PendingCompletion::Continue { target, try_depth } => SavedCompletion::Continue {
+                target: *target,
+                try_depth: *try_depth,
+            },
+        }
+    }
+}
+
+impl SavedCompletion {
+    /// Back to a pending completion that guards its own value
+    fn restore(self, heap: &crate::gc::Heap<JsObject>) -> PendingCompletion {
+        match self {
+            SavedCompletion::Return(v) => PendingCompletion::Return(Guarded::from_value(v, heap)),
+            SavedCompletion::Throw(v) => PendingCompletion::Throw(Guarded::from_value(v, heap)),
+            SavedCompletion::Break { target, try_depth } => {
+                PendingCompletion::Break { target, try_depth }
+            }
+            SavedCompletion::Continue { target, try_depth } => {
+                PendingCompletion::Continue { target, try_depth }
+            }
+        }
+    }
+}
+
 /// A saved trampoline frame for suspension (Clone-able version without Guard)
 /// The SavedVmState.guard keeps all objects alive during suspension
 #[derive(Clone)]
@@ -214,6 +274,10 @@ pub struct SavedTrampolineFrame {
     pub construct_new_obj: Option<Gc<JsObject>>,
     /// For async function calls: wrap result in a Promise when returning
     pub is_async: bool,
+    /// Saved exception value (kept alive by the SavedVmState guard)
+    pub exception_value: Option<JsValue>,
+    /// Saved pending completion (kept alive by the SavedVmState guard)
+    pub pending_completion: Option<SavedCompletion>,
 }
 
 /// A saved VM frame for the trampoline call stack
@@ -1872,6 +1936,12 @@ impl BytecodeVM {
                 if let Some(ref obj) = frame.construct_new_obj {
                     guard.guard(obj.cheap_clone());
                 }
+                let exception_value = frame.exception_value.as_ref().map(|g| {
+                    if let JsValue::Object(obj) = &g.value {
+                        guard.guard(obj.cheap_clone());
+                    }
+                    g.value.clone()
+                });
 
                 SavedTrampolineFrame {
                     ip: frame.ip,
@@ -1888,9 +1958,16 @@ impl BytecodeVM {
                     saved_interp_env: frame.saved_interp_env.cheap_clone(),
                     construct_new_obj: frame.construct_new_obj.clone(),
                     is_async: frame.is_async,
+                    exception_value,
+                    pending_completion: frame.pending_completion.as_ref().map(|p| p.save(&guard)),
                 }
             })
             .collect();
+
+        if let Some(ref ctor) = self.current_constructor {
+            guard.guard(ctor.cheap_clone());
+        }
+        let pending_completion = self.pending_completion.as_ref().map(|p| p.save(&guard));
 
         SavedVmState {
             frames: self.call_stack.clone(),
@@ -1902,6 +1979,11 @@ impl BytecodeVM {
             arguments: self.arguments.clone(),
             new_target: self.new_target.clone(),
             trampoline_stack: saved_trampoline_stack,
+            this_value: self.this_value.clone(),
+            exception_value: self.exception_value.as_ref().map(|g| g.value.clone()),
+            saved_env_stack: self.saved_env_stack.clone(),
+            current_constructor: self.current_constructor.clone(),
+            pending_completion,
         }
     }
 
@@ -1909,13 +1991,20 @@ impl BytecodeVM {
     /// The guard must protect all objects in the saved registers
     pub fn from_saved_state(
         state: SavedVmState,
-        this_value: JsValue,
         guard: Guard<JsObject>,
         heap: &crate::gc::Heap<JsObject>,
     ) -> Self {
         // Guard this_value if it's an object
-        if let JsValue::Object(obj) = &this_value {
+        if let JsValue::Object(obj) = &state.this_value {
             guard.guard(obj.cheap_clone());
+        }
+
+        // Guard the scopes and constructor of the suspended frame
+        for env in &state.saved_env_stack {
+            guard.guard(env.cheap_clone());
+        }
+        if let Some(ref ctor) = state.current_constructor {
+            guard.guard(ctor.cheap_clone());
         }
 
         // Guard all objects in the restored registers
@@ -1970,12 +2059,14 @@ impl BytecodeVM {
                     this_value: saved.this_value,
                     vm_call_stack: saved.vm_call_stack,
                     try_stack: saved.try_stack,
-                    exception_value: None, // Lost during save, but we handle exceptions differently on resume
+                    exception_value: saved
+                        .exception_value
+                        .map(|v| Guarded::from_value(v, heap)),
                     saved_env_stack: saved.saved_env_stack,
                     arguments: saved.arguments,
                     new_target: saved.new_target,
                     current_constructor: saved.current_constructor,
-                    pending_completion: None, // Lost during save
+                    pending_completion: saved.pending_completion.map(|p| p.restore(heap)),
                     return_register: saved.return_register,
                     saved_interp_env: saved.saved_interp_env,
                     register_guard: frame_guard,
@@ -1992,13 +2083,15 @@ impl BytecodeVM {
             register_guard: guard,
             call_stack: state.frames,
             try_stack: state.try_stack,
-            this_value,
-            exception_value: None,
-            saved_env_stack: Vec::new(),
+            this_value: state.this_value,
+            exception_value: state
+                .exception_value
+                .map(|v| Guarded::from_value(v, heap)),
+            saved_env_stack: state.saved_env_stack,
             arguments: state.arguments,
             new_target: state.new_target,
-            current_constructor: None,
-            pending_completion: None,
+            current_constructor: state.current_constructor,
+            pending_completion: state.pending_completion.map(|p| p.restore(heap)),
             trampoline_stack,
             register_pool: Vec::new(),
             arguments_pool: Vec::new(),
